@@ -18,6 +18,7 @@ func init() {
 			"(R2) every callback resolves exactly once before any channel send on every path, sends only on channels created in the enclosing call with capacity ≥ the sends per invocation (a completion arriving after the deadline finds room), and every channel the wrapper receives from after a successful Wait is sent to on every callback path; " +
 			"(R3) the outcome is the server's: the callback's error reaches the wrapper's error result (send→receive→return, or captured cell→return), a non-error result is dereferenced only under err==nil (defects F4/F5, repaired); " +
 			"(R4) a deadline exists: the operation's own deadline option / parameter is time.Now()+d, or it is taken from a context that is deadline-bearing at every call site (followed through callers), or — for operations without a deadline option — the AsyncOp context is. " +
+			"(R7) the duration that bounds an operation is a timeout option: a configuration field used as a period anywhere in the module never appears as a deadline, and Ping's context is bounded by HealthCheck.Timeout. " +
 			"NOT decided: what gocbcore does after Cancel; real timing around the deadline.",
 		Assumptions: []string{"gocbcore invokes an operation's callback exactly once, synchronously on Cancel", "a zero Deadline means no timeout in gocbcore"},
 		Rules: []RuleDef{
@@ -26,6 +27,7 @@ func init() {
 			{ID: "C20.R3", Text: "the callback's error reaches the wrapper's error result; results are dereferenced only under err==nil", Run: c20r3},
 			{ID: "C20.R5", Text: "Ping reports success only when both the data and the management service answered: the error handed to the waiter is non-nil ⇔ the operation failed ∨ either endpoint is missing", Run: pingOutcome},
 			{ID: "C20.R6", Text: "checkpoint writes are confirmed or reported: every storage primitive's error in the Metadata.Save backends reaches the result (same rule as C05.R5)", Run: c05r5},
+			{ID: "C20.R7", Text: "a deadline is a timeout, not a schedule: no configuration option that the module uses as a period (ticker, sleep, timer delay) bounds an operation, and the ping is bounded by HealthCheck.Timeout", Run: c20r7},
 			{ID: "C20.R4", Text: "a deadline exists for every operation (own deadline from time.Now, or a deadline-bearing context at every call site)", Run: c20r4},
 		},
 	})
@@ -643,4 +645,88 @@ func pingOutcome(c *Ctx, id string) {
 		}
 		return ""
 	}, "error to the waiter is nil ⇔ err==nil ∧ data endpoint found ∧ management endpoint found")
+}
+
+// c20r7: "returns by its deadline" presupposes that the deadline is the option meant as one. Two beliefs about one
+// configuration field contradict each other when it is used both as a schedule (ticker period, sleep, timer delay) and
+// as the bound of an operation: with interval > timeout the call outlives the timeout the operator configured.
+func c20r7(c *Ctx, id string) {
+	w := c.W
+	cfgField := func(v ssa.Value) *types.Var {
+		f := loadedField(unwrap(v))
+		if f == nil || f.Pkg() == nil || !strings.HasSuffix(f.Pkg().Path(), "/config") {
+			return nil
+		}
+		return f
+	}
+	type use struct {
+		f   *types.Var
+		pos token.Pos
+		how string
+	}
+	var periods, deadlines []use
+	for _, fn := range w.ModFuncs {
+		allInstrs(fn, func(in ssa.Instruction) {
+			cc := callOf(in)
+			if cc == nil || cc.StaticCallee() == nil {
+				return
+			}
+			n := calleeName(cc)
+			var d ssa.Value
+			isPeriod := false
+			switch n {
+			case "time.NewTicker", "time.Sleep", "time.After", "time.Tick", "time.NewTimer":
+				d, isPeriod = cc.Args[0], true
+			case "time.AfterFunc":
+				d, isPeriod = cc.Args[0], true
+			case "(*time.Timer).Reset", "(*time.Ticker).Reset":
+				d, isPeriod = cc.Args[1], true
+			case "context.WithTimeout":
+				d = cc.Args[1]
+			case "(time.Time).Add":
+				if strings.HasPrefix(w.Origin(cc.Args[0]), "call(time.Now)") {
+					d = cc.Args[1]
+				}
+			}
+			if d == nil {
+				return
+			}
+			if f := cfgField(d); f != nil {
+				u := use{f, in.Pos(), n + " in " + fname(fn)}
+				if isPeriod {
+					periods = append(periods, u)
+				} else {
+					deadlines = append(deadlines, u)
+				}
+			}
+		})
+	}
+	isPeriod := map[*types.Var]string{}
+	for _, p := range periods {
+		isPeriod[p.f] = p.how
+	}
+	n := 0
+	for _, d := range deadlines {
+		n++
+		how, clash := isPeriod[d.f]
+		c.Check(!clash, id, "timeout-not-period:"+d.f.Name()+"@"+d.how, d.pos, "bounded by "+d.f.Name()+", which the module never uses as a period",
+			"the operation is bounded by "+d.f.Name()+", which is a schedule ("+how+"), not a timeout: with the period configured longer than the timeout the call does not return by its deadline")
+	}
+	if n < 3 || len(periods) < 2 {
+		c.Undecided(id, "timeout-not-period", 0, "only %d configuration-derived deadlines and %d configuration-derived periods found (floor 3 / 2)", n, len(periods))
+	}
+	// the ping
+	ping := w.Method("couchbase", "client", "Ping")
+	c.need(ping != nil, id, "couchbase.client.Ping")
+	c.see(ping)
+	ok, got := false, ""
+	allInstrs(ping, func(in ssa.Instruction) {
+		if cc := callOf(in); cc != nil && calleeName(cc) == "context.WithTimeout" {
+			got = w.Origin(cc.Args[1])
+			if f := cfgField(cc.Args[1]); f != nil && f.Name() == "Timeout" && strings.HasSuffix(got, "HealthCheck.Timeout") {
+				ok = true
+			}
+		}
+	})
+	c.Check(ok, id, "ping-deadline", ping.Pos(), "Ping's context is bounded by HealthCheck.Timeout", "Ping's context is bounded by "+got+", expected HealthCheck.Timeout")
 }
